@@ -131,6 +131,14 @@ HTPstart(filerec_t *file_rec)
     }
     return SUCCEED;
 }
+/* DD layer teardown on the failed-create path: gives the DD list back (as in Hclose) */
+int
+HTPend(filerec_t *file_rec)
+{
+    file_rec->ddhead = NULL;
+    return SUCCEED;
+}
+
 int
 HTPinit(filerec_t *file_rec, int16 ndds)
 {
@@ -274,7 +282,11 @@ int32 Hopen(const char *path, int acc_mode, int16 ndds)
                                    g_frec->tag_tree == __CPROVER_old(g_frec->tag_tree) &&
                                    g_frec->f_end_off == __CPROVER_old(g_frec->f_end_off) && g_frec->cache == __CPROVER_old(g_frec->cache) &&
                                    g_frec->dirty == __CPROVER_old(g_frec->dirty) && g_frec->maxref == __CPROVER_old(g_frec->maxref) &&
-                                   g_frec->path == __CPROVER_old(g_frec->path) && g_frec->access == __CPROVER_old(g_frec->access)))
+                                   g_frec->path == __CPROVER_old(g_frec->path)))
+    /* the access mode only ever gains write access, and only through a successful or attempted write upgrade whose new
+       stream is in place (the stream and the recorded mode agree: VIEW_OK below) */
+    __CPROVER_ensures(g_found ==> (g_frec->access == __CPROVER_old(g_frec->access) ||
+                                   (UPGRADE && g_frec->file == HS1 && g_frec->access == (__CPROVER_old(g_frec->access) | DFACC_WRITE))))
     /* never re-created, never looked at by the DD layer again */
     __CPROVER_ensures(g_found ==> (g_create_n == 0 && g_htpstart_n == 0 && g_htpinit_n == 0 && g_wr_n == 0))
     /* no write upgrade needed: the stream is not touched at all */
